@@ -5,7 +5,7 @@ Same model, universe and conventions as `Props/C01.lean`.  The lattice order is 
 merge result, independently of the flag:  `leq b a`  :=  `merge a b ≈ a`  ("`b` is below `a`").
 C03 proves it is the order `partial_cmp` computes.
 -/
-import HvLat.Laws.All
+import HvLat.Laws.AllB
 
 namespace HvLat
 
